@@ -1039,6 +1039,13 @@ impl Property for C02 {
     fn floors() -> Vec<(&'static str, f64)> {
         vec![("copy-overlapped-update", 0.3), ("stale-read", 0.1), ("sequentially-consistent", 0.1), ("reader-retried", 0.02)]
     }
+    fn from_fuzz_bytes(d: &[u8]) -> Option<ConcCase> {
+        // one writer life without a stop point: the pure C02 scope
+        let mut c = crate::fuzzdec::decode_conc_case(d);
+        c.lives.truncate(1);
+        c.lives[0].stop_at = None;
+        Some(c)
+    }
     fn extra(_tier: Tier, env: &mut Env, _seed: u64) -> Extra {
         // probe of the known finding C02/generation-wrap-within-one-call: the reader copies three
         // words, the writer completes exactly 32767 updates (generation back to the same value), the
@@ -1303,6 +1310,9 @@ impl Property for C18 {
         //     position of its own call (reader runs k steps first, then the writer up to its stop)
         for stop in 0u32..40 {
             for lead in 0u16..14 {
+                if ex.failure.is_some() {
+                    break;
+                }
                 let mut sched = vec![];
                 // Random policy with threads [reader, writer]: choice 0 -> reader, 65535 -> writer
                 for _ in 0..lead {
@@ -1349,6 +1359,9 @@ impl Property for C18 {
             Tier::Thorough => vec![5u32, 999_999, 1_000_000, 1_000_100],
         };
         for r in rounds {
+            if ex.failure.is_some() {
+                break;
+            }
             let case = ConcCase {
                 init: InitFile::Valid { gen: 2 },
                 lives: vec![Life {
@@ -1597,6 +1610,9 @@ impl Property for C04 {
     fn check(case: &ConcCase, env: &mut Env) -> Verdict {
         c04_check(case, env)
     }
+    fn from_fuzz_bytes(d: &[u8]) -> Option<ConcCase> {
+        Some(crate::fuzzdec::decode_conc_case(d))
+    }
     fn floors() -> Vec<(&'static str, f64)> {
         vec![("crash-inside-update", 0.15), ("crash-inside-wipe", 0.05), ("restart-on-usable-segment", 0.2), ("restart-on-unusable-segment", 0.1), ("reader-survived-restart", 0.1), ("late-client-attached", 0.3)]
     }
@@ -1624,6 +1640,9 @@ impl Property for C04 {
                         ]
                     };
                     for sched_shape in 0..3u8 {
+                        if ex.failure.is_some() {
+                            break;
+                        }
                         let sched: Vec<u16> = match sched_shape {
                             0 => vec![],                                                           // readers first
                             1 => (0..200).map(|i| if i % 2 == 0 { 0 } else { u16::MAX }).collect(), // alternate
